@@ -120,7 +120,11 @@ class TimeTriggerDecorator(TriggerDecorator):
                 )
                 if time_next is None:
                     _LOGGER.debug("trigger %s finished", self.name)
-                    if isinstance(self.dm, WaitUntilDecoratorManager):
+                    if (
+                        isinstance(self.dm, WaitUntilDecoratorManager)
+                        and len(self.dm.get_decorators(TriggerDecorator)) == 1
+                    ):
+                        # nothing else to wait for; with other triggers or a timeout the wait goes on
                         await self.dispatch(DispatchData({"trigger_type": "none"}))
                     break
 
